@@ -286,6 +286,13 @@ static int erange_index(const MFile &f, const MVar &v, const Access &a) {
     switch (a.memtype) { case MT_INT: case MT_UINT: case MT_LONG: case MT_LONGLONG: case MT_ULONGLONG: case MT_FLOAT: case MT_DOUBLE: break; default: return -1; }
     return (int)(a.erange % (int)a.elems.size());
 }
+// NFC normalisation of the few decomposed sequences the generator produces (e / u / a + combining acute / diaeresis / grave)
+std::string nfc_lite(const std::string &in) {
+    static const struct { const char *from, *to; } tab[] = {{"e\xcc\x81", "\xc3\xa9"}, {"u\xcc\x88", "\xc3\xbc"}, {"a\xcc\x80", "\xc3\xa0"}};
+    std::string s = in;
+    for (auto &t : tab) { size_t pos = 0; std::string f = t.from; while ((pos = s.find(f, pos)) != std::string::npos) { s.replace(pos, f.size(), t.to); pos += strlen(t.to); } }
+    return s;
+}
 static bool model_step_inner(Model &m, Op &op);
 bool model_step(Model &m, Op &op) {
     bool ok = model_step_inner(m, op);
@@ -315,13 +322,15 @@ static bool model_step_inner(Model &m, Op &op) {
     if (op.file < 0 || op.file >= (int)m.files.size()) { op.skip = true; return false; }
     MFile &f = m.files[op.file];
     auto skip = [&]() { op.skip = true; return false; };
+    const std::string nm = nfc_lite(op.name), nm2 = nfc_lite(op.name2);   // names are stored and compared in NFC; the raw spelling is what the call passes
     if (op.alt_rank >= 0 && (op.kind == OP_DEF_DIM || op.kind == OP_DEF_VAR || op.kind == OP_RENAME_DIM || op.kind == OP_RENAME_VAR || op.kind == OP_PUT_ATT || op.kind == OP_ENDDEF2)) {
         // C08: one rank passes a different name / value to a collective metadata call.  In safe mode every rank must get the same error and nothing may change;
         // without safe mode the behaviour is undefined, so the disagreement is dropped (the op is executed with agreeing arguments).
         bool differs = op.alt_name.empty() ? (op.alt_val != (op.kind == OP_ENDDEF2 ? op.a[1] : op.a[0])) : (op.alt_name != ((op.kind == OP_RENAME_DIM || op.kind == OP_RENAME_VAR) ? op.name2 : op.name));
         if (op.kind == OP_DEF_VAR && op.alt_name.empty() && !type_ok_for_format((int)op.alt_val, f.open ? f.format : 1)) differs = false;
         if (op.kind == OP_DEF_DIM && op.alt_name.empty() && op.alt_val <= 0) differs = false;
-        if ((op.kind == OP_PUT_ATT || op.kind == OP_RENAME_DIM || op.kind == OP_RENAME_VAR) && op.alt_name.empty()) differs = false;
+        if ((op.kind == OP_RENAME_DIM || op.kind == OP_RENAME_VAR) && op.alt_name.empty()) differs = false;
+        if (op.kind == OP_PUT_ATT && op.alt_name.empty()) differs = op.att.v.size() >= 2 && op.att.type != NC_CHAR;   // value disagreement: the last element differs on one rank
         if (m.safe_mode && m.nprocs > 1 && op.alt_rank < m.nprocs && differs) {
             Model t = m; t.cur_ops = nullptr; t.opidx = opidx; Op o2 = op; o2.alt_rank = -1; bool ok = model_step_inner(t, o2);
             if (ok && !o2.skip && o2.exp_rc == NC_NOERR && o2.exp_rc_rank.empty()) { op.rc_any = true; op.note = "multidefine"; return true; }   // state unchanged
@@ -423,16 +432,16 @@ static bool model_step_inner(Model &m, Op &op) {
     case OP_SYNCPOINT: if (!f.open || f.mode == FM_DEFINE) return skip(); bb_flush_all(f); sync_numrecs(f); mark_synced(f); m.pending_reads.clear(); return true;
     case OP_SET_FILL: if (!f.open || f.mode != FM_DEFINE) return skip(); f.fill = (op.a[0] != 0); for (auto &v : f.vars) { v.no_fill = !f.fill; v.fill_known = true; } return true;
     case OP_DEF_DIM: {
-        if (!f.open || f.mode != FM_DEFINE || op.name.empty() || op.a[0] < 0) return skip();
-        for (auto &d : f.dims) if (d.name == op.name) return skip();
+        if (!f.open || f.mode != FM_DEFINE || nm.empty() || op.a[0] < 0) return skip();
+        for (auto &d : f.dims) if (d.name == nm) return skip();
         if (op.a[0] == 0 && f.unlimdim() >= 0) return skip();
-        MDim d; d.name = op.name; d.len = op.a[0]; f.dims.push_back(d); return true;
+        MDim d; d.name = nm; d.len = op.a[0]; f.dims.push_back(d); return true;
     }
     case OP_DEF_VAR: {
-        if (!f.open || f.mode != FM_DEFINE || op.name.empty()) return skip();
-        for (auto &v : f.vars) if (v.name == op.name) return skip();
+        if (!f.open || f.mode != FM_DEFINE || nm.empty()) return skip();
+        for (auto &v : f.vars) if (v.name == nm) return skip();
         if (!type_ok_for_format((int)op.a[0], f.format)) return skip();
-        MVar v; v.name = op.name; v.type = (int)op.a[0]; v.no_fill = !f.fill; v.recelems = 1;
+        MVar v; v.name = nm; v.type = (int)op.a[0]; v.no_fill = !f.fill; v.recelems = 1;
         if (!op.dims.empty() && f.dims.empty()) return skip();
         for (size_t i = 0; i < op.dims.size(); i++) {
             int d = (int)(((op.dims[i] % (long long)f.dims.size()) + f.dims.size()) % f.dims.size());
@@ -468,12 +477,12 @@ static bool model_step_inner(Model &m, Op &op) {
         sync_numrecs(f); return true;
     }
     case OP_PUT_ATT: {
-        if (!f.open || op.name.empty() || f.readonly) return skip();
+        if (!f.open || nm.empty() || f.readonly) return skip();
         std::vector<MAtt> *l = &f.gatts;
         if (op.var >= 0) { int vi = resolve_var(f, op.var); if (vi < 0) return skip(); l = &f.vars[vi].atts; op.var = vi; }
         if (!type_ok_for_format(op.att.type, f.format)) return skip();
-        if (op.name == "_FillValue") return skip();
-        MAtt *a = find_att(*l, op.name);
+        if (nm == "_FillValue") return skip();
+        MAtt *a = find_att(*l, nm);
         if (f.mode != FM_DEFINE) {
             if (!a) return skip();
             { auto pad4 = [](long long x) { return (x + 3) / 4 * 4; }; if (pad4((long long)op.att.v.size() * nc_type_size(op.att.type)) > pad4((long long)a->v.size() * nc_type_size(a->type))) return skip(); }   // data mode: permitted exactly when the padded size in the header does not grow
@@ -481,7 +490,7 @@ static bool model_step_inner(Model &m, Op &op) {
         }
         long long mx = type_maxval(op.att.type);
         for (auto &x : op.att.v) x = 1 + (((x - 1) % mx) + mx) % mx;   // into [1, mx]; idempotent (programs are re-annotated on replay / by C10)
-        if (!a) { l->push_back(MAtt()); a = &l->back(); a->name = op.name; }
+        if (!a) { l->push_back(MAtt()); a = &l->back(); a->name = nm; }
         a->type = op.att.type; a->v = op.att.v; return true;
     }
     case OP_DEL_ATT: {
@@ -494,29 +503,29 @@ static bool model_step_inner(Model &m, Op &op) {
         op.name = (*l)[i].name; l->erase(l->begin() + i); return true;
     }
     case OP_RENAME_ATT: {
-        if (!f.open || f.readonly || op.name2.empty()) return skip();
+        if (!f.open || f.readonly || nm2.empty()) return skip();
         std::vector<MAtt> *l = &f.gatts;
         if (op.var >= 0) { int vi = resolve_var(f, op.var); if (vi < 0) return skip(); l = &f.vars[vi].atts; op.var = vi; }
         if (l->empty()) return skip();
         size_t i = (size_t)(((op.a[0] % (long long)l->size()) + l->size()) % l->size());
-        if ((*l)[i].name == "_FillValue" || op.name2 == "_FillValue") return skip();
-        if (find_att(*l, op.name2)) return skip();
-        if (f.mode != FM_DEFINE && (op.name2.size() > (*l)[i].name.size() || f.mode == FM_INDEP)) return skip();
-        op.name = (*l)[i].name; (*l)[i].name = op.name2; return true;
+        if ((*l)[i].name == "_FillValue" || nm2 == "_FillValue") return skip();
+        if (find_att(*l, nm2)) { if (f.mode == FM_DEFINE && nm2 != op.name2 && find_att(*l, nm2) != &(*l)[i]) { op.name = (*l)[i].name; op.exp_rc = NC_ENAMEINUSE; return true; } return skip(); }   // a non-NFC spelling of a name already in use is still in use
+        if (f.mode != FM_DEFINE && (nm2.size() > (*l)[i].name.size() || f.mode == FM_INDEP)) return skip();
+        op.name = (*l)[i].name; (*l)[i].name = nm2; return true;
     }
     case OP_RENAME_DIM: {
-        if (!f.open || f.readonly || f.dims.empty() || op.name2.empty()) return skip();
+        if (!f.open || f.readonly || f.dims.empty() || nm2.empty()) return skip();
         size_t i = (size_t)(((op.dim % (int)f.dims.size()) + f.dims.size()) % f.dims.size());
-        for (auto &d : f.dims) if (d.name == op.name2) return skip();
-        if (f.mode != FM_DEFINE && (op.name2.size() > f.dims[i].name.size() || f.mode == FM_INDEP)) return skip();
-        op.dim = (int)i; f.dims[i].name = op.name2; return true;
+        for (size_t k = 0; k < f.dims.size(); k++) if (f.dims[k].name == nm2) { if (f.mode == FM_DEFINE && nm2 != op.name2 && k != i) { op.dim = (int)i; op.exp_rc = NC_ENAMEINUSE; return true; } return skip(); }
+        if (f.mode != FM_DEFINE && (nm2.size() > f.dims[i].name.size() || f.mode == FM_INDEP)) return skip();
+        op.dim = (int)i; f.dims[i].name = nm2; return true;
     }
     case OP_RENAME_VAR: {
-        if (!f.open || f.readonly || f.vars.empty() || op.name2.empty()) return skip();
+        if (!f.open || f.readonly || f.vars.empty() || nm2.empty()) return skip();
         int vi = resolve_var(f, op.var);
-        for (auto &v : f.vars) if (v.name == op.name2) return skip();
-        if (f.mode != FM_DEFINE && (op.name2.size() > f.vars[vi].name.size() || f.mode == FM_INDEP)) return skip();
-        op.var = vi; f.vars[vi].name = op.name2; return true;
+        for (size_t k = 0; k < f.vars.size(); k++) if (f.vars[k].name == nm2) { if (f.mode == FM_DEFINE && nm2 != op.name2 && (int)k != vi) { op.var = vi; op.exp_rc = NC_ENAMEINUSE; return true; } return skip(); }
+        if (f.mode != FM_DEFINE && (nm2.size() > f.vars[vi].name.size() || f.mode == FM_INDEP)) return skip();
+        op.var = vi; f.vars[vi].name = nm2; return true;
     }
     case OP_ATTACH: {
         if (!f.open) return skip();
